@@ -102,6 +102,13 @@ func (r *Run) Apply(a Action) {
 		}
 	case "restart":
 		w.Restart()
+	case "fault":
+		// the N-th controller call (error-before-call) / controller write (other kinds) from now on fails
+		spec := FaultSpec{Kind: a.Arg, At: a.N}
+		if i := strings.Index(a.Arg, ":"); i > 0 {
+			spec.Kind, spec.Target = a.Arg[:i], a.Arg[i+1:]
+		}
+		w.Faults = NewFaults(spec)
 	case "settle":
 		// controllers and environment run (fairly, no user) until they wait for something
 		for n := 0; n < 400; n++ {
@@ -543,6 +550,20 @@ func (r *Run) releaseDuringCancel(target client.Object, ver string) bool {
 		if len(revs) >= 2 && !revs[revisionHash(tpl)] {
 			return true
 		}
+		// the workload is not settled (e.g. handed back by a disabled Rollout and still rolling):
+		// CloneSet status.currentRevision, which becomes the recorded stable revision, is not the
+		// revision the pods run
+		if cs, ok := target.(*kruisev1alpha1.CloneSet); ok {
+			ro := r.W.Rollout(r.S.Namespace, r.S.Name)
+			if ro != nil && ro.Status.Phase != v1beta1.RolloutPhaseProgressing {
+				cur := cs.Status.CurrentRevision[strings.LastIndex(cs.Status.CurrentRevision, "-")+1:]
+				for rev := range revs {
+					if rev != cur {
+						return true
+					}
+				}
+			}
+		}
 		// a third revision while a release is progressing: the restarted release records the
 		// superseded revision as stable as soon as every pod had reached it
 		if ro := r.W.Rollout(r.S.Namespace, r.S.Name); ro != nil && ro.Status.Phase == v1beta1.RolloutPhaseProgressing && ro.Status.GetSubStatus() != nil {
@@ -571,8 +592,9 @@ func (r *Run) jumpToSelfWithPlanEdit(ro *v1beta1.Rollout, next int32, editing bo
 	if editing {
 		return true // a jump to the current step is pending and the plan is about to change
 	}
-	// jumping to self while a plan change is unprocessed
-	return sub.RolloutHash != "" && sub.RolloutHash != ro.Annotations[util.RolloutHashAnnotation]
+	// jumping to self while a plan change is unprocessed (not even seen yet, or seen and not yet
+	// acted upon)
+	return ro.Generation != ro.Status.ObservedGeneration || (sub.RolloutHash != "" && sub.RolloutHash != ro.Annotations[util.RolloutHashAnnotation])
 }
 
 // exitBeforeBatchRelease: workload marked in-progressing and no BatchRelease exists.
